@@ -138,6 +138,7 @@ Pre(s, op, a) ==
     \* contract is stated on the per-chemical totals only (recorded executions; not part of the model's Next)
     [] op = "copy_flow_multi" -> /\ {a.x, a.y} \subseteq Names /\ a.x # a.y /\ t[a.x].fr # t[a.y].fr /\ t[a.x].k = "m"
                                  /\ Range(a.ids) \subseteq PkgChems[t[a.y].pkg]
+                                 /\ (a.ph = "all" \/ (a.ph \in AllPhases /\ ~a.excl))      \* (a named phase together with exclude: not specified here)
                                  /\ InPkg(t[a.x], [c \in 1..NC |-> IF c \in CopyK(t, a) THEN Tot(t[a.y])[c] ELSE 0])
     [] op = "scale" -> a.x \in Names /\ \A i \in DOMAIN t[a.x].ph : ScalesExactly(t[a.x].fl[t[a.x].ph[i]], a.q)
     [] op = "empty" -> a.x \in Names
@@ -344,13 +345,19 @@ Judge(s, e) ==
        \* are copied), and with remove the source loses exactly what was copied
        IF e.obs.exc # None THEN "ok"
        ELSE LET K == CopyK(t, a)
-                all == a.all /\ ~a.excl IN
+                all == a.all /\ ~a.excl /\ a.ph = "all"
+                \* what the call moves of chemical c: with a phase named, only what the source holds in that phase (a single-phase
+                \* source: everything if that is its phase, nothing otherwise)
+                Moved(c) == IF c \notin K THEN 0
+                            ELSE IF a.ph = "all" THEN Tot(t[a.y])[c]
+                            ELSE IF t[a.y].k = "m" THEN Row(t[a.y], a.ph)[c]
+                            ELSE IF Place(t[a.y].ph[1], Range(t[a.x].ph)) = a.ph THEN Tot(t[a.y])[c] ELSE 0 IN       \* (labels up to case where the exact one is absent)
             IF ~Legal(e.post) THEN "post.illformed"
             \* copied chemicals: the source's amount arrives; what the receiver held of them in phases the copy does not write may stay
             \* (the library keeps it in some branches) but nothing beyond that appears; the other chemicals stay as they were
-            ELSE IF \E c \in 1..NC : IF c \in K THEN Tot(u[a.x])[c] < Tot(t[a.y])[c] \/ Tot(u[a.x])[c] > Tot(t[a.y])[c] + Tot(t[a.x])[c]
+            ELSE IF \E c \in 1..NC : IF c \in K THEN Tot(u[a.x])[c] < Moved(c) \/ Tot(u[a.x])[c] > Moved(c) + Tot(t[a.x])[c]
                                        ELSE Tot(u[a.x])[c] # (IF all THEN 0 ELSE Tot(t[a.x])[c]) THEN "conservation.copied_flow"
-            ELSE IF \E c \in 1..NC : Tot(u[a.y])[c] # (IF a.remove /\ c \in K THEN 0 ELSE Tot(t[a.y])[c]) THEN "conservation.source"
+            ELSE IF \E c \in 1..NC : Tot(u[a.y])[c] # (IF a.remove THEN Tot(t[a.y])[c] - Moved(c) ELSE Tot(t[a.y])[c]) THEN "conservation.source"
             ELSE IF ~FrameOK(s, e, {a.x, a.y}) THEN "frame"
             ELSE "ok"
   ELSE IF e.obs.exc # Exc(s, e.op, e.a) THEN "exception"
